@@ -85,6 +85,7 @@ type Interp struct {
 	trace    []string // notable events (ghost log) for evidence/replay
 	ghost    map[string]Value
 	cur      *frame
+	intWraps int // wrap-aware Int-sorted additions/subtractions emitted
 
 	// per-path outcome
 	violations        []*Violation
@@ -940,11 +941,24 @@ func (in *Interp) binop(op token.Token, xt types.Type, a, b Value) Value {
 	}
 	signed := isSigned(xt)
 	if x.S == SInt || y.S == SInt {
-		// mathematical-integer carried int64 (ghost clock quantities): no wrap-around is modelled
+		// mathematical-integer carried int64 (ghost clock quantities). Sums and differences computed by the code under
+		// test wrap around as the machine's do (one correction by 2^64 suffices for + and -); products, and the
+		// arithmetic of the harnesses' own oracles, stay mathematical
 		x, y = toInt(x, signed), toInt(y, signed)
 		switch op {
 		case token.ADD, token.SUB, token.MUL:
-			return intBin(op.String(), x, y)
+			r := intBin(op.String(), x, y)
+			if op != token.MUL && signed && !r.C {
+				if bt, ok := xt.Underlying().(*types.Basic); ok && (bt.Kind() == types.Int64 || bt.Kind() == types.Int) {
+					if _, repo := in.raceRepoCode(); repo {
+						in.intWraps++
+						two64 := "18446744073709551616"
+						rs := r.smt()
+						r = symInt("(ite (> " + rs + " 9223372036854775807) (- " + rs + " " + two64 + ") (ite (< " + rs + " (- 9223372036854775808)) (+ " + rs + " " + two64 + ") " + rs + "))")
+					}
+				}
+			}
+			return r
 		case token.QUO, token.REM:
 			// Go truncates towards zero, SMT div floors: spell the truncated quotient out over absolute values
 			if in.branch(tEq(y, mkInt(0))) {
